@@ -265,3 +265,36 @@ def rule_ref_merge(ctx, F):
     ctx.ob(ok, "ref-finalize-fold", fz.loc, "finalize folds parent_output(cv_stack[i], output.chaining_value(), key_words, flags): %s" % ok)
     ro = [c for c in calls_of(fz) if c[1][1] == "Output::root_output_bytes"]
     ctx.ob(len(ro) == 1, "ref-finalize-root", fz.loc, "finalize ends in root_output_bytes: %d" % len(ro))
+
+
+def rule_ref_lazy_chunk(ctx, F):
+    """reference Hasher::update: a full chunk is turned into an interior chaining value only when more input
+    is known to follow (the last chunk must stay open for finalize, which gives it the ROOT/CHUNK_END treatment)"""
+    fn = F.need_fn("Hasher::update")
+    inp = [l for l in range(len(fn.locals)) if fn.names.get(l) == "input"]
+    if not inp:
+        raise MissingAnchor("parameter input of reference Hasher::update")
+    n = 0
+    for bi, t in fn.calls():
+        name = callee_name(t["callee"])
+        if name not in ("Hasher::add_chunk_chaining_value", "ChunkState::new"):
+            continue
+        n += 1
+        gs = guards_at(fn, bi)
+        nonempty = None
+        for c, tr in gs:
+            if c[0] == "call" and norm_path(c[1]).endswith("is_empty") and find_sub(c, ("phi", inp[0], "input")) is not None and tr is False:
+                nonempty = c
+            if c[0] == "bin" and c[1] in ("Gt", "Ne") and find_sub(c, ("phi", inp[0], "input")) is not None and tr is True and "len" in show(c):
+                nonempty = c
+        full = any(c[0] == "bin" and c[1] == "Eq" and ("const", "CHUNK_LEN", 1024) in (c[2], c[3]) and tr is True for c, tr in gs)
+        ok = nonempty is not None and full
+        if ok:
+            # `input` is not advanced between the test and the call
+            gblocks = [b for b in range(len(fn.blocks)) if fn.blocks[b]["term"]["k"] == "switch" and val(fn.expr_operand(fn.blocks[b]["term"]["op"])) == nonempty]
+            for d in fn.defs().get(inp[0], []):
+                if fn.paths_avoiding(d[1], bi, set(gblocks)):
+                    ok = False
+        ctx.ob(ok, "ref-chunk-closed-only-with-more-input:%s" % name.split("::")[-1], t.get("s"),
+               "guards: input non-empty=%s, chunk_state.len() == CHUNK_LEN=%s" % (nonempty is not None, full))
+    ctx.floor("chunk-closing calls in reference update", n, 2)
